@@ -14,3 +14,33 @@ func zzC01_xmp_free() {
 	zzAssert(r.Requested() <= 4*r.Len()+65536, "bytes requested from the reader stay within 4*len + 64 KiB")
 	zzReached("end")
 }
+
+// long white-space runs after the last attribute (before "/>" and ">") and between tags, around the look-ahead steps:
+// ParseXmp returns within the step budget
+func zzC01_xmp_space_N() int { return 24 }
+func zzC01_xmp_space() {
+	n := []int{120, 128, 250, 251, 252, 253, 254, 255, 256, 300, 765, 770}[zzPart()/2]
+	w := make([]byte, n)
+	for i := range w {
+		w[i] = " \n"[i%7/6]
+	}
+	v := zzBytes("v", 1)
+	zzAssume(v[0] >= '0' && v[0] <= '9')
+	var b []byte
+	if zzPart()%2 == 0 {
+		b = append([]byte(`<x:xmpmeta xmlns:x="adobe:ns:meta/"><rdf:Description rdf:about="" xmp:Rating="`), v[0], '"')
+		b = append(b, w...)
+		b = append(b, `/></x:xmpmeta>`...)
+	} else {
+		b = append([]byte(`<x:xmpmeta xmlns:x="adobe:ns:meta/"><rdf:Description rdf:about="" xmp:Rating="`), v[0], '"')
+		b = append(b, w...)
+		b = append(b, `>`...)
+		b = append(b, w...)
+		b = append(b, `</rdf:Description></x:xmpmeta>`...)
+	}
+	r := zzReaderOf(b)
+	x, _ := ParseXmp(r)
+	zzAssert(r.Requested() <= 4*r.Len()+65536, "bytes requested from the reader stay within 4*len + 64 KiB")
+	_ = x
+	zzReached("end")
+}
